@@ -4,7 +4,6 @@ import (
 	"math/big"
 
 	"github.com/gr33nbl00d/caddy-revocation-validator/config"
-	"github.com/gr33nbl00d/caddy-revocation-validator/core"
 	"github.com/gr33nbl00d/caddy-revocation-validator/crl/crlrepository"
 	"github.com/gr33nbl00d/caddy-revocation-validator/zz_verif/verifrt"
 )
@@ -20,7 +19,7 @@ func VerifC01_Sources() {
 	strict := verifrt.Choose(2) == 1
 	sig := config.SignatureValidationModeVerify
 	disk := verifrt.Param("disk", 0) == 1
-	c := newChecker(disk, config.CRLFetchModeActively, strict, sig)
+	worldUp()
 	target := sym("target")
 	other := sym("other")
 	// three publications; which of them list the target is a free choice
@@ -32,7 +31,7 @@ func VerifC01_Sources() {
 		return crlrepository.VerifNewCRL(name, "CN=I1", other)
 	}
 	pubA, pubB, pubC := mk(0, "A"), mk(1, "B"), mk(2, "C")
-	// B (configured URL) may be unacceptable: then it is not in force
+	// B (configured URL) may be unacceptable: then the validator does not come up (verify mode)
 	bGood := verifrt.Choose(2) == 1
 	if !bGood {
 		pubB.SetSigOK(false)
@@ -40,13 +39,13 @@ func VerifC01_Sources() {
 	crlrepository.VerifSetServer(urlA, true, pubA)
 	crlrepository.VerifSetServer(urlB, true, pubB)
 	crlrepository.VerifSetServer(fileC, true, pubC)
-	chains := core.NewCertificateChains(nil, nil)
-	c.crlConfig.CRLUrls = []string{urlB}
-	c.crlConfig.CRLFiles = []string{fileC}
-	errB := c.addCrlUrlsFromConfig(chains)
-	verifrt.Assert((errB == nil) == bGood, "a configured URL is taken in iff its CRL is acceptable")
-	errC := c.addCrlFilesFromConfig(chains)
-	verifrt.Assert(errC == nil, "configured file taken in")
+	// the real Provision takes the configured URL and file in
+	c, perr := provisionChecker(disk, config.CRLFetchModeActively, strict, sig, []string{urlB}, []string{fileC})
+	verifrt.Assert((perr == nil) == bGood, "provisioning succeeds iff the configured CRLs are acceptable")
+	if perr != nil {
+		verifrt.Reach("provision-refused")
+		return
+	}
 	// optionally: a later refresh of the configured file delivers a list with a bad signature. It is rejected
 	// (verify mode), so the previously accepted list stays in force - and must still be consulted.
 	if verifrt.Choose(2) == 1 {
